@@ -142,14 +142,10 @@ def rule_index_set(ctx, repo):
         ok = Q.has("return [self.%s[$i] for $i in self.system.Output.%s]" % (arr, ix), fn) and Q.has("return self.%s" % arr, fn)
         ctx.check(ok, "C15.index", "DAE.%s" % prop, "names[k] = %s[Output.%s[k]] (same order as the stored columns)" % (arr, ix),
                   "output names no longer follow Output.%s in order" % ix, repo.W(ci, fn))
-    o = F.method(repo, "Output", "to_output_addr", OUTPUT)
-    ok = Q.has("$b = self.in1d($addr, $vc)", o.fn) and Q.has("$oa = np.where($b)[0]", o.fn)
-    i1 = F.method(repo, "Output", "in1d", OUTPUT)
-    ok = ok and Q.has("return np.isin(self.xidx, $a)", i1.fn) and Q.has("return np.isin(self.yidx, $a)", i1.fn)
-    ctx.check(ok, "C15.index", "Output.to_output_addr", "column position = position of the address within xidx/yidx",
-              "address translation for selected output changed", o.W())
+    # the address translation itself (order, shared addresses, sub-indices) is decided by evaluation: rules/c15_outaddr.py (the first version
+    # of this rule had frozen `np.where(np.isin(xidx, addr))`, which is the defect: ascending-address order with duplicates merged)
     gd = F.method(repo, "DAETimeSeries", "get_data", DAE)
-    ok = Q.has("indices = self.dae.system.Output.to_output_addr($v, check=True)", gd.fn)
+    ok = any(isinstance(c, ast.Call) and isinstance(c.func, ast.Attribute) and c.func.attr == "to_output_addr" for c in ast.walk(gd.fn))
     ctx.check(ok, "C15.index", "DAETimeSeries.get_data", "queries translate addresses through Output when a selection is active",
               "get_data no longer translates addresses for selected output", gd.W())
 
@@ -450,3 +446,5 @@ def run(ctx):
     rule_store_flow(ctx, repo)
     rule_replay(ctx, repo)
     rule_fresh_view(ctx, repo)
+    from rules import c15_outaddr
+    c15_outaddr.run_rule(ctx, repo)
